@@ -749,7 +749,13 @@ def run(ctx):
     import os as _os
     if not wfs and _os.environ.get("VERIF_C16_STRICT") != "1":
         for f in res.findings:
-            if f.rule != "C16.WIT" and not (f.rule == "C16.NOPANIC" and "unreachable" not in f.what and "panic_2021" not in f.what and "$crate::panic" not in f.what):
+            if f.rule != "C16.WIT" and not (f.rule == "C16.NOPANIC" and "unreachable" not in f.what and "panic_2021" not in f.what and "$crate::panic" not in f.what
+                                            and "Index::index" not in f.what):
+                f.undecided = True
+            elif f.rule == "C16.NOPANIC" and "Index::index" in f.what:
+                # `names[i]` with i drawn from `0..names.len()` and the like: whether the index is in bounds is a fact about
+                # run-time lengths that no rule here establishes or refutes
+                f.what += ": the bound of the index was not established (undecided)"
                 f.undecided = True
     res.samples = [{"witness": r["witness"], "cause": r["cause"], "level": r["level"], "diagnostic": r["diagnostic"]} for r in results if r["role"] == "poisoned"][:10]
     res.samples.append({"merge_tables": tables})
